@@ -160,6 +160,20 @@ fn print_family(dir: &Path, nfiles: usize) -> Vec<PathBuf> {
         s.push_str(&format!("union U{} {{ 1: string a, 2: i64 b, 3: FooBar{} c }}\n", i, i));
         s.push_str(&format!("exception E{} {{ 1: string message }}\n", i));
         s.push_str(&format!("const string NAME{} = \"fam{}\"\nconst map<string, i32> TABLE{} = {{\"a\": 1, \"b\": 2, \"c\": 3}}\n", i, i, i));
+        // constants and defaults that name enums of this and of an included file by integer and by variant,
+        // from several namespaces: the rendered path depends on the module being generated
+        s.push_str(&format!("const Kind{} KC{} = 1\nconst list<Kind{}> KL{} = [0, 1, 2]\nconst map<Kind{}, string> KM{} = {{Kind{}.A: \"a\", Kind{}.B: \"b\"}}\n", i, i, i, i, i, i, i, i));
+        if i > 0 {
+            let j = i - 1;
+            s.push_str(&format!("const fam{}.Kind{} PKC{} = 1\nconst list<fam{}.Kind{}> PKL{} = [0, 1, 2, 3]\nconst map<string, fam{}.Kind{}> PKM{} = {{\"x\": 2, \"y\": fam{}.Kind{}.B}}\n", j, j, i, j, j, i, j, j, i, j, j));
+            s.push_str(&format!("struct Defaults{} {{\n  1: optional fam{}.Kind{} k = 1,\n  2: optional Kind{} own = 2,\n  3: optional list<i32> l = [1, 2],\n  4: optional string s = NAME{},\n  5: optional list<fam{}.Kind{}> ks = [3, 0],\n}}\n", i, j, j, i, i, j, j));
+        }
+        if i > 1 {
+            let j = i - 2;
+            if (i + j) % 2 == 0 {
+                s.push_str(&format!("const list<fam{}.Kind{}> PPL{} = [1, 2]\n", j, j, i));
+            }
+        }
         for svc in 0..3 {
             s.push_str(&format!("service Svc{}x{} {{\n", i, svc));
             for m in 0..4 {
